@@ -412,9 +412,11 @@ class Branch(SequenceSet[Node], EventEmitter, abcs.Copyable, metaclass=BranchMet
         if isinstance(node, SentenceNode):
             s: Sentence = node[Node.Key.sentence]
             if len(cons := s.constants):
-                if self._nextconst in cons:
-                    self._nextconst = max(cons).next()
                 self._constants.update(cons)
+                if self._nextconst in cons:
+                    # Skip past every constant on the branch, not only those
+                    # of this sentence, so the next constant is really new.
+                    self._nextconst = max(self._constants).next()
 
         if isinstance(node, Modal):
             worlds = frozenset(node.worlds())
